@@ -28,9 +28,13 @@ pub fn main(seed: u64, part: &str, n: u64) -> i32 {
             }
         }
         "programs" => {
-            let directed = crate::directed::builtin();
+            // the cheap directed programs first (Miri is ~100x slower than native), then small generated ones
+            let directed: Vec<(&str, String)> = crate::directed::builtin()
+                .into_iter()
+                .filter(|(n, _)| !n.contains("deep-recursion") && !n.contains("loop-garbage") && !n.contains("long"))
+                .collect();
             for i in 0..n {
-                let src = if (i as usize) < directed.len() {
+                let src = if (i as usize) < directed.len().min(8) {
                     directed[i as usize].1.clone()
                 } else {
                     let mut rng = Rng::new(mix(seed, 0x3142, i));
@@ -39,14 +43,19 @@ pub fn main(seed: u64, part: &str, n: u64) -> i32 {
                     cfg.loop_max = 2;
                     gen_program::Gen::new(&mut rng, cfg).program().src
                 };
+                let mut steps = 0;
                 for every in [false, true] {
+                    if every && steps > 150 {
+                        continue;
+                    }
                     let mut plan = Plan::plain();
-                    plan.budget = 3_000;
+                    plan.budget = 1_500;
                     plan.track_survivors = true;
                     if every {
                         plan.collect = CollectPlan::Every;
                     }
                     let r = runner::run_eval(&src, &plan, 1, true);
+                    steps = r.steps;
                     for f in &r.findings {
                         if !f.class.starts_with("harness:") {
                             println!("finding in program {}: {} [{}] {}", i, f.class, f.key, f.detail);
